@@ -11,7 +11,7 @@ from props._cfg_common import TRUSTED, ASSUMPTIONS, TECHNIQUE
 PROP = "C11"
 LEVEL = "proof"
 THEOREMS = {"Properties.C11": ["C11_member_oracle", "C11_accepts_final_oracle", "C11_automaton_accepts", "C11_cfg_intersection_dfa", "C11_cfg_intersection",
-                             "C11_pda_intersection_product", "C11_pda_intersection_deterministic", "C11_pda_intersection", "C11_pda_intersection_total"]}
+                             "C11_pda_intersection_product", "C11_pda_intersection_deterministic", "C11_pda_intersection", "C11_pda_intersection_total", "C11_cfg_intersection_regex", "C11_pda_intersection_regex"]}
 LEVEL_TEXT = ("Proof + correspondence: Coq theorems show, for the mirrored constructions and ALL operands and words, that cfg.intersection (determinise "
               "the automaton, emptiness shortcut, Chomsky normal form, Bar-Hillel triples, Start -> epsilon when both sides contain the empty word) "
               "generates exactly L(G) /\\ L(A), and that pda.intersection (operand kept when is_deterministic() holds, determinised otherwise; product over "
